@@ -41,7 +41,7 @@ M = [
  # --- second batch: subtler slips
  ("C07-dpa-e2e-not-copied", "bromelia/process.py", "        answer.header.hop_by_hop = msg.header.hop_by_hop\n        answer.header.end_to_end = msg.header.end_to_end\n\n        return answer", "        answer.header.hop_by_hop = msg.header.hop_by_hop\n        if msg.header.command_code != DISCONNECT_PEER_MESSAGE:\n            answer.header.end_to_end = msg.header.end_to_end\n\n        return answer", ["C07"]),
  ("C07-zero-hbh-skipped", "bromelia/process.py", "        answer.header.hop_by_hop = msg.header.hop_by_hop\n        answer.header.end_to_end = msg.header.end_to_end\n\n        return answer", "        if int.from_bytes(msg.header.hop_by_hop, 'big'):\n            answer.header.hop_by_hop = msg.header.hop_by_hop\n        answer.header.end_to_end = msg.header.end_to_end\n\n        return answer", ["C07"]),
- ("C08-peer-close-not-noticed", "bromelia/transport.py", "                tcp_connection.debug(f\"[Socket-{self.sock_id}] Peer closed \"\\\n                                     f\"connection\")\n                self._stop_threads = True", "                tcp_connection.debug(f\"[Socket-{self.sock_id}] Peer closed \"\\\n                                     f\"connection\")", ["C08", "C06"]),
+ ("C08-peer-close-not-noticed", "bromelia/transport.py", "                tcp_connection.debug(f\"[Socket-{self.sock_id}] Peer closed \"\\\n                                     f\"connection\")\n                self._stop_threads = True", "                tcp_connection.debug(f\"[Socket-{self.sock_id}] Peer closed \"\\\n                                     f\"connection\")", ["C08", "C06"], 2),
  ("C04-app-queue-lifo", "bromelia/setup.py", "self.postprocess_recv_messages = queue.Queue()", "self.postprocess_recv_messages = queue.LifoQueue()", ["C04"]),
  ("C14-notify-before-update", "bromelia/bromelia.py", "            p_answer.update_msg(msg)\n\n            worker.remove_pending_answer(p_answer)", "            worker.remove_pending_answer(p_answer)\n            p_answer.update_msg(msg)", ["C14"]),
  ("C13-exception-clause-narrowed", "bromelia/bromelia.py", "            answer = callback_function(request)\n        except Exception as e:", "            answer = callback_function(request)\n        except (ValueError, KeyError, TypeError, AttributeError) as e:", ["C13"]),
